@@ -134,7 +134,7 @@ class Scn:
         return [z3.Int('t%d' % i) for i in range(k)]
 
     # -- file-system part of Inv: a *.val file exists iff a present row names it, with the recorded size
-    def fs_inv(self, T):
+    def fs_inv(self, T, allow_orphans=False):
         w = self.w
         conj = []
         items = [it for it in T.items if it.present is not False]
@@ -143,9 +143,9 @@ class Scn:
             fid = w.intern_text(rel)
             known.append(fid)
             names = [And(it.present, EqI(it.c['filename'].cls, TEXT), EqR(it.c['filename'].num, fid)) for it in items]
-            conj.append(sx.EqB(ex, OrL(names)))
+            conj.append(Implies(OrL(names), ex) if allow_orphans else sx.EqB(ex, OrL(names)))
             conj.append(Implies(ex, AndL(Implies(nm, EqR(it.c['size'].num, size)) for nm, it in zip(names, items))))
-            conj.append(Implies(ex, bool(complete)))
+            conj.append(Implies(And(ex, OrL(names)), bool(complete)) if allow_orphans else Implies(ex, bool(complete)))
         # every present row with a file name names a known file
         for it in items:
             conj.append(Implies(And(it.present, EqI(it.c['filename'].cls, TEXT)), OrL(EqR(it.c['filename'].num, k) for k in known)))
